@@ -323,6 +323,7 @@ pub fn color_external(text: &[u8]) -> bool {
     };
     let hash_form = !body.is_empty() && body[0] == b'#' && (body.len() == 7 || body.len() == 9);
     let name_form = !body.is_empty()
+        && body[0].is_ascii_lowercase()
         && body.iter().all(|b| b.is_ascii_lowercase() || b.is_ascii_digit() || *b == b'-');
     (slash && hash_form) || name_form
 }
